@@ -46,6 +46,9 @@ pub enum Op {
     Threshold(u8),
     Ceiling(u8),
     Timeout(u8),
+    /// a reload through the real apply_connection_changes: bit k of the mask lists address k (one more address
+    /// than the case starts with); an empty selection is skipped
+    Reload(u8),
 }
 
 #[derive(Debug, Clone, Hash, Serialize, Deserialize)]
@@ -67,6 +70,11 @@ pub enum Which {
     /// C05 on real routing: whenever the real handle_srt_packet made a probe duplicate, the datagram is
     /// flushed and NAKed at once; the charge must go to the link that carried the unique copy
     C05,
+    /// C11 on the real glue: the link a plain data datagram lands on equals the scheduler's answer for the anchor the
+    /// glue is supposed to pass (its previous choice; none after a reload removed a link)
+    C11,
+    /// C12 on the real glue: with the guard off every stall flag is cleared by every client datagram, whatever its kind
+    C12,
 }
 
 fn adv() -> impl Strategy<Value = u32> {
@@ -105,6 +113,7 @@ fn op() -> impl Strategy<Value = Op> {
         1 => (0u8..THRESHOLDS.len() as u8).prop_map(Op::Threshold),
         1 => (0u8..CEILINGS.len() as u8).prop_map(Op::Ceiling),
         1 => (0u8..TIMEOUTS.len() as u8).prop_map(Op::Timeout),
+        1 => (1u8..32).prop_map(Op::Reload),
     ]
 }
 
@@ -156,8 +165,14 @@ pub fn check(case: &Case, obs: &mut Obs, which: Which, ctx: &Ctx) -> CheckResult
     let mut counter: u32 = 1000;
     let mut decisions = 0u64;
     let mut nontrivial = false;
+    let n0 = n;
+    let mut removed_since_decision = false;
 
     for (oi, op) in case.ops.iter().enumerate() {
+        let n = sh.st.conns.len();
+        if n == 0 {
+            break;
+        }
         let eligible_before: Vec<bool> = sh.st.conns.iter().map(|c| c.connected && !matches!(c.phase, LinkPhase::Registering)).collect();
         match op {
             Op::Advance(d) => sh.advance(*d as u64),
@@ -179,6 +194,24 @@ pub fn check(case: &Case, obs: &mut Obs, which: Which, ctx: &Ctx) -> CheckResult
             Op::Threshold(t) => sh.st.cfg.stall_min_in_flight = THRESHOLDS[*t as usize % THRESHOLDS.len()],
             Op::Ceiling(t) => sh.st.cfg.stall_ack_stale_ms = CEILINGS[*t as usize % CEILINGS.len()],
             Op::Timeout(t) => sh.st.cfg.conn_timeout_ms = TIMEOUTS[*t as usize % TIMEOUTS.len()],
+            Op::Reload(mask) => {
+                let list: Vec<std::net::IpAddr> = (0..=n0 as u8).filter(|k| mask >> k & 1 == 1).map(crate::engine::shell::link_ip).collect();
+                if list.is_empty() {
+                    continue;
+                }
+                let before: Vec<u64> = sh.st.conns.iter().map(|c| c.conn_id).collect();
+                sh.apply_ips(&list);
+                let after: Vec<u64> = sh.st.conns.iter().map(|c| c.conn_id).collect();
+                if before.iter().any(|c| !after.contains(c)) {
+                    removed_since_decision = true;
+                    obs.class("reload-removed-a-link");
+                }
+                if after.iter().any(|c| !before.contains(c)) {
+                    obs.class("reload-added-a-link");
+                }
+                let _ = sh.drain_wire();
+                continue;
+            }
             Op::Up(l, u) => {
                 let li = idx(*l, n);
                 let now = sh.now();
@@ -248,7 +281,17 @@ pub fn check(case: &Case, obs: &mut Obs, which: Which, ctx: &Ctx) -> CheckResult
                         })
                         .collect();
                     let critical_open = sh.st.critical.is_critical_now(now);
+                    // C11: what the scheduler answers for the anchor the glue is supposed to pass
+                    let plain = *kind == 0 && !critical_open;
+                    let expected: Option<Option<usize>> = if which == Which::C11 && plain && !sh.st.cfg.mode.is_classic() {
+                        let anchor = if removed_since_decision { None } else { sh.st.last_selected };
+                        let cfg = sh.st.cfg;
+                        Some(srtla_core::selection::select_connection_idx(&mut sh.st.conns, anchor, now, &cfg))
+                    } else {
+                        None
+                    };
                     sh.client_pkt(&pkt);
+                    removed_since_decision = false;
                     decisions += 1;
                     let wire = sh.drain_wire();
                     // where did copies of this datagram go?
@@ -277,6 +320,40 @@ pub fn check(case: &Case, obs: &mut Obs, which: Which, ctx: &Ctx) -> CheckResult
                                 ctx.filter_known(r, &mut o2)?;
                                 obs.known_hits.append(&mut o2.known_hits);
                             }
+                        }
+                    }
+                    if let Some(exp) = expected {
+                        let ungated: Vec<usize> = holders.iter().copied().filter(|i| !sh.st.conns[*i].is_stall_gated()).collect();
+                        match exp {
+                            Some(e) => {
+                                vensure!(ungated == vec![e], "glue-anchor-mismatch", "op {oi}: the scheduler answers link {e} for the previous choice the glue should pass, the datagram went to {:?}", ungated);
+                            }
+                            None => {
+                                vensure!(holders.is_empty(), "glue-anchor-mismatch", "op {oi}: the scheduler answers None, the datagram went to {:?}", holders);
+                            }
+                        }
+                        if sh.st.conns.len() >= 2 {
+                            nontrivial = true;
+                        }
+                    }
+                    if which == Which::C12 && !sh.st.cfg.stall_deselect {
+                        for (i, c) in sh.st.conns.iter().enumerate() {
+                            let (latched_since, recovery_since, pulled, _) = c.verif_guard_state();
+                            vensure!(
+                                !c.is_stall_gated() && !c.stall_latched() && latched_since == 0 && recovery_since == 0 && !pulled,
+                                "guard-off-not-cleared",
+                                "op {oi}: guard off, a {} datagram was routed, but link {i} still has gated={} latched_since={} recovery_since={} pulled={}",
+                                kind_name(*kind, critical_open),
+                                c.is_stall_gated(),
+                                latched_since,
+                                recovery_since,
+                                pulled
+                            );
+                        }
+                        obs.class("guard-off-decision");
+                        if *kind != 0 || critical_open {
+                            nontrivial = true;
+                            obs.class("guard-off-must-land-datagram");
                         }
                     }
                     if which == Which::C05 && *kind != 2 && !holders.is_empty() {
